@@ -270,6 +270,23 @@ func c12Encode(c *mc.Ctx, h *ref.PESHdr, what string, public bool) {
 		}
 		c.Ev.Class("leftover-behind-cleared-flag", 1)
 	}
+	// a stream id that has no optional header, written from a struct that still carries one (a header template
+	// reused across streams): ISO 13818-1 2.4.3.7 defines no optional header for these ids, so the encoding is
+	// the six fixed bytes whatever the struct holds
+	if !ref.HasOptHeader(h.StreamID) && !isF10ID(h.StreamID) {
+		for _, sh := range []int64{0, 1, pesShapeRadix.Size() - 1} {
+			lh := fromRefPES(pesShape(sh, 0xc0))
+			lh.StreamID = h.StreamID
+			for _, plen := range []int{0, 24, 65535} {
+				want := h.Encode(nil, plen)
+				got, n, err := astits.VerifWritePESHeader(lh, plen)
+				if err != nil || n != len(got) || !bytes.Equal(got, want) {
+					c.Rep.Report("encode-differs:optional-header-written-for-headerless-stream-id", map[string]any{"kind": "pes", "what": what, "payload_len": plen, "bytes": mc.Hex(want), "message": fmt.Sprintf("stream id %#x has no optional header; a leftover OptionalHeader in the struct changes the written header: n=%d err=%v\n got  %x\n want %x", h.StreamID, n, err, got, want)})
+				}
+			}
+		}
+		c.Ev.Class("leftover-optional-header-on-headerless-id", 1)
+	}
 	if public && ref.HasOptHeader(h.StreamID) {
 		// through Muxer.WriteData: reassemble the PES bytes from the packets
 		rw := NewRecWriter()
@@ -499,7 +516,7 @@ func checkC12(c *mc.Ctx) {
 		}
 	}
 	c.Ev.AddScenario(mc.Scenario{Name: "Duration(): base alphabet x all 512 extensions", SpaceSize: int64(len(ts33Alpha)) * 512, Executed: int64(len(ts33Alpha)) * 512, Exhaustive: true})
-	c.Ev.Require("stream-id-without-optional-header", "payload-boundary", "leftover-behind-cleared-flag")
+	c.Ev.Require("stream-id-without-optional-header", "payload-boundary", "leftover-behind-cleared-flag", "leftover-optional-header-on-headerless-id")
 }
 
 func dataOf(d *astits.PESData) []byte {
